@@ -466,8 +466,12 @@ theorem neighbourhood_removal_models_agree (i : Nat) (nb : List (Nat × Rat)) (h
 
 /-- the objective `3·x₁ + 5·x₀ + 2·x₀x₁` written with `x₁` first; removing variable 0: both models leave `variables_ = [0]`,
     linear `[3]`, no interaction -/
-example : toEn (reindexGen (rebuild 2 [1, 0] [3, 5] [(0, 1, 2)] 0) 0) = (toEn (rebuild 2 [1, 0] [3, 5] [(0, 1, 2)] 0)).reindexVariables 0
-    ∧ (toEn (reindexGen (rebuild 2 [1, 0] [3, 5] [(0, 1, 2)] 0) 0)).vars = [0] ∧ (reindexGen (rebuild 2 [1, 0] [3, 5] [(0, 1, 2)] 0) 0).qb.lin = [3] := by
+example :
+    let e := rebuild 2 [1, 0] [3, 5] [(0, 1, 2)] 0
+    (toEn (reindexGen e 0)).vars = ((toEn e).reindexVariables 0).vars
+    ∧ (toEn (reindexGen e 0)).qb.lin = ((toEn e).reindexVariables 0).qb.lin
+    ∧ (toEn (reindexGen e 0)).qb.adj = ((toEn e).reindexVariables 0).qb.adj
+    ∧ (toEn (reindexGen e 0)).vars = [0] ∧ (reindexGen e 0).qb.lin = [3] ∧ (reindexGen e 0).qb.adj = [[]] := by
   decide +kernel
 
 end IndicesModel
